@@ -178,6 +178,9 @@ class Banana(protocol.Protocol, styles.Ephemeral):
     buffer = b""
 
     def dataReceived(self, chunk):
+        if not chunk:
+            # Nothing new to parse; whatever is buffered is still incomplete.
+            return
         buffer = self.buffer + chunk
         listStack = self.listStack
         gotItem = self.gotItem
